@@ -289,7 +289,17 @@ SyntaxVisitor::Action DeclarationBinder::visitArrayOrFunctionDeclarator(const Ar
             VISIT(node->initializer());
             pushNewScope(node, ScopeKind::FunctionPrototype, true);
             VISIT(node->suffix());
-            popAndStashScope();
+            /*
+             * 6.9.1-2
+             * Only the function declarator that declares the function itself carries
+             * the parameters of a definition; not, e.g., the one of a returned function
+             * pointer in `int (*f(int a))(int b) { ... }'.
+             */
+            auto innerDecltor = SyntaxUtilities::unparenthesizeDeclarator(node->innerDeclarator());
+            if (innerDecltor && innerDecltor->kind() == SyntaxKind::IdentifierDeclarator)
+                popAndStashScope();
+            else
+                popScope();
 
             openFuncTys_.pop();
             return Action::Skip;
